@@ -1146,6 +1146,12 @@ func (c *simChain) CreateOpeningTransaction(p *swap.OpeningParams) (string, stri
 	if rep {
 		return "", "", "", 0, 0, errDead
 	}
+	// a wallet adapter that broadcasts and then fails (lwk: the raw transaction is fetched from the Electrum server
+	// after the broadcast; CLN: txsend error reporting): the transaction is out, the caller gets an error
+	if f := c.w.fault("opening-after"); f != "" {
+		c.w.note(Obs{Kind: "walleterr-after-broadcast", A: map[string]string{"chain": c.name}})
+		return "", "", "", 0, 0, errors.New("sim wallet (after broadcast): " + f)
+	}
 	return txHex, "addr-opening", txid, c.fee, uint32(c.voutShift), nil
 }
 
